@@ -59,7 +59,8 @@ type Func struct {
 	Params   []Param
 	Results  []Result
 	Variadic bool
-	Err      bool // has a trailing error result
+	Err      bool // has an error result (last, unless ErrAt says otherwise)
+	ErrAt    int  // 1-based output position of the error result; 0 = last
 
 	OptName  string   // dig.Name
 	OptGroup string   // dig.Group (may carry ",flatten")
@@ -400,6 +401,22 @@ func resultType(r Result) reflect.Type {
 	panic("resultType")
 }
 
+// errIndex is the position of the error result among the function's outputs
+// (ErrAt-1 if set, else last).
+func (f *Func) errIndex() int {
+	if f.ErrAt > 0 && f.ErrAt-1 <= len(f.Results) {
+		return f.ErrAt - 1
+	}
+	return len(f.Results)
+}
+
+func insertAt[T any](s []T, i int, v T) []T {
+	s = append(s, v)
+	copy(s[i+1:], s[i:])
+	s[i] = v
+	return s
+}
+
 // FuncType is the Go function type of a spec.
 func (f *Func) FuncType() reflect.Type {
 	var in, out []reflect.Type
@@ -414,7 +431,7 @@ func (f *Func) FuncType() reflect.Type {
 		out = append(out, resultType(r))
 	}
 	if f.Err {
-		out = append(out, tErr)
+		out = insertAt(out, f.errIndex(), tErr)
 	}
 	return reflect.FuncOf(in, out, f.Variadic)
 }
@@ -544,19 +561,23 @@ func (rt *Runtime) Body(f *Func, inst string, ft reflect.Type, args []reflect.Va
 		}
 	}
 	for i, r := range f.Results {
-		out = append(out, build(r, ft.Out(i), true))
+		oi := i
+		if f.Err && i >= f.errIndex() {
+			oi++
+		}
+		out = append(out, build(r, ft.Out(oi), true))
 	}
 	ev := Event{Kind: EvExit, Fn: inst, Exec: exec, Outcome: beh, Results: toks}
 	if f.Err {
 		if beh == BehOK {
-			out = append(out, reflect.Zero(tErr))
+			out = insertAt(out, f.errIndex(), reflect.Zero(tErr))
 		} else {
 			ue := &UserErr{Fn: inst, Exec: exec}
 			ev.Err = ue
 			ev.Results = toks
 			e := reflect.New(tErr).Elem()
 			e.Set(reflect.ValueOf(ue))
-			out = append(out, e)
+			out = insertAt(out, f.errIndex(), e)
 		}
 	}
 	ev.At = rt.Clock.Elapsed()
